@@ -76,7 +76,7 @@ Definition h_detached_mapped : list (env * op) :=
   [(env_of [] false false, Add 0); (env_of [] false false, Commit); (env_of [1] false false, PkSet 0 2);
    (env_of [1] false true, Flush); (env_of [2] false false, Expunge 0); (env_of [2] false false, Rollback)].
 Lemma detached_mapped : let st := run h_detached_mapped (init false [1]) in
-  mapped_attached st = false /\ iimap (get st 0) = true /\ osess (get st 0) = false.
+  mapped_attached st = false /\ iimap (get st 0) = true /\ osess (get st 0) = false /\ bad st = true.
 Proof. vm_compute. repeat split; reflexivity. Qed.
 
 (* the row of a persistent object disappears behind the session's back, a new object with the same
@@ -84,8 +84,8 @@ Proof. vm_compute. repeat split; reflexivity. Qed.
 Definition h_row_vanished : list (env * op) :=
   [(env_of [1] false false, Query 0 0); (env_of [] false false, Add 0); (env_of [] false false, Flush)].
 Lemma row_vanished : let st := run h_row_vanished (init true [1]) in
-  one_persistent_per_key st = false /\ persistent_mapped st = false.
-Proof. vm_compute. split; reflexivity. Qed.
+  one_persistent_per_key st = false /\ persistent_mapped st = false /\ bad st = true.
+Proof. vm_compute. repeat split; reflexivity. Qed.
 
 (* two pending objects with the primary key of a persistent object that is deleted in the same flush:
    both are "row switches", both become persistent under the same identity (no [stop] here: the
@@ -95,8 +95,8 @@ Lemma double_row_switch :
   let s1 := rst (step e Commit (rst (step e (Add 0) (init true [1; 1; 1])))) in
   let s2 := rst (step e1 (Add 2) (rst (step e1 (Add 1) (rst (step e1 (Delete 0) s1))))) in
   let st := rst (step e1 Flush s2) in
-  one_persistent_per_key st = false /\ persistent_mapped st = false.
-Proof. vm_compute. split; reflexivity. Qed.
+  one_persistent_per_key st = false /\ persistent_mapped st = false /\ bad st = true.
+Proof. vm_compute. repeat split; reflexivity. Qed.
 
 (* a history through loads and mutations on which everything is consistent *)
 Definition h_good : list (env * op) :=
@@ -106,5 +106,5 @@ Definition h_good : list (env * op) :=
    (env_of [1] false false, Merge 0)].
 Lemma good_consistent : let st := run h_good (init true [5]) in
   mapped_attached st = true /\ persistent_mapped st = true /\ one_persistent_per_key st = true /\
-  length (objs st) = 4%nat.
+  length (objs st) = 4%nat /\ bad st = false.
 Proof. vm_compute. repeat split; reflexivity. Qed.
